@@ -183,13 +183,55 @@ pub open spec fn deletion_entry(l: Line) -> LineChange {
     LineChange { line: l.source_line_no.unwrap(), ranges: None }
 }
 
-/// D-b postcondition (A.1 (a)-(d) and the carved (iv)); `o` is the ghost origin sequence
+// ---- every removed line is accounted for (C01: "... or DELETES a line ...") --------------------
+/// [gs, fa) is a maximal run of removed lines that IS followed by added lines, [fa, ge) is the
+/// maximal run of those added lines: a "replace group" with fa - gs removed and ge - fa added lines
+pub open spec fn replace_group(ls: Seq<Line>, gs: int, fa: int, ge: int) -> bool {
+    &&& 0 <= gs < fa < ge <= ls.len()
+    &&& gs == 0 || kind(ls[gs - 1]) != Kind::Rem
+    &&& forall|j: int| gs <= j < fa ==> kind(#[trigger] ls[j]) == Kind::Rem
+    &&& forall|j: int| fa <= j < ge ==> kind(#[trigger] ls[j]) == Kind::Add
+    &&& ge == ls.len() || kind(ls[ge]) != Kind::Add
+}
+
+/// Some entry reports the surplus deletions of the replace group whose added lines are [fa, ge) of
+/// hunk h: a whole-line change (`ranges: None`) on the group's last added line, or a deletion entry
+/// (`ranges: None`) at the new-file line that follows the group. ANY such entry satisfies the clause
+/// (KF2: today the code produces none).
+pub open spec fn surplus_reported(f: PatchedFile, out: Seq<LineChange>, h: int, fa: int, ge: int) -> bool {
+    exists|i: int| 0 <= i < out.len() && (#[trigger] out[i]).ranges is None
+        && (hunk_lines(f, h)[ge - 1].target_line_no == Some(out[i].line) || out[i].line == ct(f.spec_hunks()[h], ge))
+}
+
+/// the removed line at (h, k) is accounted for: paired with an added line of its group (the j-th
+/// removed with the j-th added), or its group reports the surplus, or it lies in a pure-deletion
+/// run that has its entry
+pub open spec fn removed_accounted(f: PatchedFile, out: Seq<LineChange>, o: Seq<Orig>, h: int, k: int) -> bool {
+    let ls = hunk_lines(f, h);
+    ||| exists|gs: int, fa: int, ge: int| #[trigger] replace_group(ls, gs, fa, ge) && gs <= k < fa
+            && (k - gs < ge - fa || surplus_reported(f, out, h, fa, ge))
+    ||| exists|ks: int, e: int| #[trigger] pure_del_run(ls, ks, e) && ks <= k < e && has_entry(o, h, ks)
+}
+
+pub open spec fn post_removed_accounted(f: PatchedFile, out: Seq<LineChange>, o: Seq<Orig>) -> bool {
+    forall|h: int, k: int| 0 <= h < f.spec_hunks().len() && 0 <= k < hunk_lines(f, h).len()
+        && kind(#[trigger] hunk_lines(f, h)[k]) == Kind::Rem ==> removed_accounted(f, out, o, h, k)
+}
+
+/// KF2 carve-out: no replace group has more removed than added lines
+pub open spec fn kf2_carve_out(f: PatchedFile) -> bool {
+    forall|h: int, gs: int, fa: int, ge: int| 0 <= h < f.spec_hunks().len() && #[trigger] replace_group(hunk_lines(f, h), gs, fa, ge)
+        ==> fa - gs <= ge - fa
+}
+
+/// D-b postcondition (A.1 (a)-(d), the carved (iv), the carved "removed lines accounted for"); `o` is the ghost origin sequence
 pub open spec fn db_post(f: PatchedFile, out: Seq<LineChange>, o: Seq<Orig>) -> bool {
     &&& post_every_added(f, o)
     &&& post_every_pure_deletion(f, o)
     &&& post_nothing_else(f, out, o)
     &&& post_origin_increasing(o)
     &&& kf1_carve_out(f) ==> post_deletion_new_numbering(f, out, o)
+    &&& kf2_carve_out(f) ==> post_removed_accounted(f, out, o)
 }
 
 pub proof fn lemma_has_entry_push(o: Seq<Orig>, x: Orig)
